@@ -758,6 +758,9 @@ def check_absent(ctx, version, name, rg=FRESH):
     return True
 
 
+_REUSED = {}
+
+
 def check_case(ctx, version, name, values, rg=FRESH, payload=None):
     """(a) and (b) for one value vector.  True when both agree."""
     from minecraft.networking.packets import PacketBuffer
@@ -797,6 +800,31 @@ def check_case(ctx, version, name, values, rg=FRESH, payload=None):
                         short(got), explain(name, version, got))), case)
         else:
             ctx.outcome('write == reference frame')
+        # the same through ONE long-lived packet object per core packet,
+        # whose fields are re-assigned for every vector (a program that
+        # keeps a packet and sends it again with new values)
+        old = _REUSED.get(('w', name))
+        if old is None:
+            old = _REUSED[('w', name)] = cls()
+        old.context = rg.ctx_for(version)
+        for a, v in kw.items():
+            setattr(old, a, v)
+        buf = PacketBuffer()
+        old.write(buf)
+        got2 = buf.get_writable()
+        ctx.count()
+        if got2 != frame and got == frame:
+            ok = False
+            ctx.violation(
+                rg.key('write-reused-object v=%d %s' % (version, name)),
+                rg.what(
+                    'protocol %d %s (%s): a packet object that was written '
+                    'before with other values, its documented fields '
+                    're-assigned, writes bytes that differ from the '
+                    'published layout (a fresh object with the same values '
+                    'writes them correctly).\nvalues   %s\nexpected %s\n'
+                    'got      %s' % (version, name, clsname, show(values),
+                                     short(frame), short(got2))), case)
     except ToolError:
         raise
     except Exception as e:
@@ -832,6 +860,34 @@ def check_case(ctx, version, name, values, rg=FRESH, payload=None):
                            % (a, show(exp), show(g)))
         if left:
             bad.append('%d bytes not consumed' % len(left))
+        if not bad:
+            # ... and decoded into ONE long-lived object per core packet
+            old = _REUSED.get(('r', name))
+            if old is None:
+                old = _REUSED[('r', name)] = cls()
+            old.context = rg.ctx_for(version)
+            buf = PacketBuffer()
+            buf.send(payload)
+            buf.reset_cursor()
+            old.read(buf)
+            ctx.count()
+            bad2 = ['%s: expected %s got %s' % (
+                attr_of(name, f), show(values[f]),
+                show(getattr(old, attr_of(name, f), None)))
+                for f, t in L if not same(
+                    name, f, t, getattr(old, attr_of(name, f), None),
+                    values[f])]
+            if bad2:
+                ok = False
+                ctx.violation(
+                    rg.key('read-reused-object v=%d %s' % (version, name)),
+                    rg.what(
+                        'protocol %d %s (%s): decoding a payload in the '
+                        'published layout into a packet object that has '
+                        'decoded other payloads before gives other values '
+                        '(a fresh object decodes it correctly): %s\npayload '
+                        '%s' % (version, name, clsname, '; '.join(bad2[:6]),
+                                short(payload))), case)
         if bad:
             ok = False
             ctx.outcome('read DIFFERS')
